@@ -62,7 +62,7 @@ def execute(ctx, name, progs, exes, ops_by_prog):
     model = [m for m, ix in zip(model_all, index) if ix is not None]
     if len(model_all) != len(model_ops):
         ctx.obligation_failed("correspondence:" + name, "model driver answered %d of %d lines" % (len(model_all), len(model_ops)))
-        return []
+        return [], 0
     rows = []
     ndiff = 0
     for (pid, op), a, b in zip([ix for ix in index if ix is not None], impl, model):
